@@ -195,6 +195,54 @@ UpperByte(c) == IF c \in 97..122 THEN c - 32 ELSE c
 ToLower(s) == [i \in 1..Len(s) |-> LowerByte(s[i])]
 ToUpper(s) == [i \in 1..Len(s) |-> UpperByte(s[i])]
 
+(* ------------------------------------------------------------------ UTF-8 *)
+(* Well-formed UTF-8 byte sequences (Unicode Table 3-7).  SeqLenAt(s, p): the length of the       *)
+(* well-formed sequence that starts at the 1-based position p, 0 if there is none.                *)
+ByteAt(s, i) == IF i >= 1 /\ i <= Len(s) THEN s[i] ELSE -1
+IsCont(b) == b \in 128..191
+SeqLenAt(s, p) ==
+    LET b0 == ByteAt(s, p)  b1 == ByteAt(s, p + 1)  b2 == ByteAt(s, p + 2)  b3 == ByteAt(s, p + 3) IN
+    IF b0 \in 0..127 THEN 1
+    ELSE IF b0 \in 194..223 /\ IsCont(b1) THEN 2
+    ELSE IF b0 = 224 /\ b1 \in 160..191 /\ IsCont(b2) THEN 3
+    ELSE IF (b0 \in 225..236 \/ b0 \in 238..239) /\ IsCont(b1) /\ IsCont(b2) THEN 3
+    ELSE IF b0 = 237 /\ b1 \in 128..159 /\ IsCont(b2) THEN 3
+    ELSE IF b0 = 240 /\ b1 \in 144..191 /\ IsCont(b2) /\ IsCont(b3) THEN 4
+    ELSE IF b0 \in 241..243 /\ IsCont(b1) /\ IsCont(b2) /\ IsCont(b3) THEN 4
+    ELSE IF b0 = 244 /\ b1 \in 128..143 /\ IsCont(b2) /\ IsCont(b3) THEN 4
+    ELSE 0
+CodepointAt(s, p, n) ==
+    IF n = 1 THEN s[p]
+    ELSE IF n = 2 THEN (s[p] % 32) * 64 + (s[p + 1] % 64)
+    ELSE IF n = 3 THEN (s[p] % 16) * 4096 + (s[p + 1] % 64) * 64 + (s[p + 2] % 64)
+    ELSE (s[p] % 8) * 262144 + (s[p + 1] % 64) * 4096 + (s[p + 2] % 64) * 64 + (s[p + 3] % 64)
+(* the code points of s, and the 0-based byte offset where each starts; an ill-formed rest is     *)
+(* reported as a final -1                                                                          *)
+RECURSIVE DecodeFrom(_, _)
+DecodeFrom(s, p) ==
+    IF p > Len(s) THEN <<>>
+    ELSE LET n == SeqLenAt(s, p) IN
+         IF n = 0 THEN << -1 >> ELSE << CodepointAt(s, p, n) >> \o DecodeFrom(s, p + n)
+Decode(s) == DecodeFrom(s, 1)
+RECURSIVE StartsFrom(_, _)
+StartsFrom(s, p) ==
+    IF p > Len(s) THEN <<>>
+    ELSE LET n == SeqLenAt(s, p) IN IF n = 0 THEN <<>> ELSE << p - 1 >> \o StartsFrom(s, p + n)
+CharStarts(s) == StartsFrom(s, 1)
+IsUtf8(s) == \A i \in 1..Len(Decode(s)) : Decode(s)[i] # -1
+CharCount(s) == Len(Decode(s))
+Reverse(q) == [i \in 1..Len(q) |-> q[Len(q) + 1 - i]]
+(* utf8_byte_count(lead byte): "ASCII 1, continuation byte 0, 2-byte / 3-byte / 4-byte sequence, invalid 0" *)
+LeadByteLen(b) == IF b < 128 THEN 1 ELSE IF b < 192 THEN 0 ELSE IF b < 224 THEN 2
+                  ELSE IF b < 240 THEN 3 ELSE IF b < 248 THEN 4 ELSE 0
+
+(* ------------------------------------------------------------------ byte classes of word_boundary.rs *)
+(* is_whitespace: "space, tab, newline, carriage return, form feed, vertical tab" *)
+IsWhitespaceByte(c) == c \in {32, 9, 10, 13, 12, 11}
+(* is_punctuation: "an ASCII punctuation character": ! .. / : .. @ [ .. ` { .. ~ ; the module   *)
+(* counts '_' (95) as a word character, so the contract leaves the answer for '_' open            *)
+IsPunctByte(c) == c \in 33..47 \/ c \in 58..64 \/ c \in 91..96 \/ c \in 123..126
+
 (* ================================================================== contracts of batch events *)
 (* A matrix event carries two pools a (rows) and b (columns) and m[i][j] = what the              *)
 (* implementation returned for (a[i], b[j]).                                                     *)
@@ -289,4 +337,116 @@ SelectRange(v, lo, hi, i) ==
     IF i > Len(v) THEN <<>>
     ELSE (IF Cmp(v[i], lo) >= 0 /\ Cmp(v[i], hi) < 0 THEN << v[i] >> ELSE <<>>) \o SelectRange(v, lo, hi, i + 1)
 RangeOK(v, lo, hi, r) == r = SelectRange(v, lo, hi, 1)
+
+(* ------------------------------------------------------------------ second round of entry points *)
+(* FastStr conversions and constructors for one string s (event fs_conv).  x.raw: the bytes of     *)
+(* from_raw_parts(ptr, len); x.gbu: get_byte_unchecked(i) for every i; x.valid / x.str: as_str();   *)
+(* x.unchecked: as_str_unchecked() (only called when as_str() is Some); x.owned / x.cow:            *)
+(* into_string() / to_cow_str() (lossy for ill-formed input: only constrained for well-formed);     *)
+(* x.eqs: the answers of the PartialEq<str / &str / String / &[u8]> and From / AsRef twins, all of   *)
+(* which compare s with an equal copy (TRUE expected) and with a different string (FALSE expected)  *)
+FsConvOK(x) ==
+    LET s == x.s IN
+    /\ x.raw = s /\ x.len = Len(s) /\ x.empty = (Len(s) = 0)
+    /\ x.gbu = s
+    /\ x.valid = IsUtf8(s)
+    /\ x.valid => (x.str = s /\ x.unchecked = s /\ x.owned = s /\ x.cow = s)
+    /\ \A i \in 1..Len(x.eqs) : x.eqs[i].r = x.eqs[i].want
+(* FastStr::split(d): "Split the string by a delimiter".  The fields between the delimiter bytes;   *)
+(* the API does not say whether a trailing empty field (or the single empty field of the empty       *)
+(* string) is delivered, so both readings are accepted - a wrong field never is.                     *)
+DropLastEmptyField(f) == IF Len(f) > 0 /\ f[Len(f)] = <<>> THEN SubSeq(f, 1, Len(f) - 1) ELSE f
+FsSplitOK(s, d, r) == r = Split(s, <<d>>) \/ r = DropLastEmptyField(Split(s, <<d>>))
+
+(* sse42_multi_search(h, n): "Searches for any of the specified characters and returns all           *)
+(* positions": the positions of the bytes of h that occur in n, ascending; ch[i] is the byte found    *)
+(* there (or, as the field comment says, its index in n)                                              *)
+MultiSearchOK(c) ==
+    LET want == { p \in 0..(Len(c.h) - 1) : \E k \in 1..Len(c.n) : c.n[k] = c.h[p + 1] } IN
+    /\ \A i \in 1..(Len(c.pos) - 1) : c.pos[i] < c.pos[i + 1]
+    /\ { c.pos[i] : i \in 1..Len(c.pos) } = want
+    /\ Len(c.ch) = Len(c.pos)
+    /\ \A i \in 1..Len(c.pos) : \/ c.ch[i] = c.h[c.pos[i] + 1]
+                                \/ (c.ch[i] + 1 \in 1..Len(c.n) /\ c.n[c.ch[i] + 1] = c.h[c.pos[i] + 1])
+
+(* lexicographic_iterator::utils over a sorted sequence v *)
+PrefixCount(v, p) == Cardinality({ i \in 1..Len(v) : StartsWith(v[i], p) })
+(* common prefix of all strings, cut back to a character boundary (the function works on chars) *)
+RECURSIVE MinCpl(_, _)
+MinCpl(v, i) == IF i > Len(v) THEN Len(v[1]) ELSE MinI(CommonPrefixLen(v[1], v[i]), MinCpl(v, i + 1))
+RECURSIVE BackToBoundary(_, _)
+BackToBoundary(s, k) == IF k = 0 \/ k = Len(s) \/ ~IsCont(s[k + 1]) THEN k ELSE BackToBoundary(s, k - 1)
+CommonPrefixOfAll(v) == IF Len(v) = 0 THEN <<>> ELSE SubSeq(v[1], 1, BackToBoundary(v[1], MinCpl(v, 1)))
+
+(* binary search over a sorted view v: Ok(i) must point at an element equal to the needle (any copy), *)
+(* Err(i) at the insertion point; Err on an unsorted vector is a refusal                                *)
+BSearchCaseOK(v, c) ==
+    IF c.found THEN c.i \in 0..(Len(v) - 1) /\ v[c.i + 1] = c.t
+    ELSE /\ c.i \in 0..Len(v)
+         /\ \A k \in 1..Len(v) : (k <= c.i => Cmp(v[k], c.t) < 0) /\ (k > c.i => Cmp(v[k], c.t) > 0)
+(* orders offered by SortableStrVec besides the lexicographic one *)
+DescSorted(r) == \A i \in 1..(Len(r) - 1) : Cmp(r[i], r[i + 1]) >= 0
+LenSorted(r) == \A i \in 1..(Len(r) - 1) : Len(r[i]) <= Len(r[i + 1])
+
+(* byte class tables (256 answers each) *)
+CharClassOK(e) ==
+    /\ Len(e.w) = 256 /\ Len(e.s) = 256 /\ Len(e.p) = 256 /\ Len(e.u8) = 256
+    /\ \A c \in 0..255 : /\ e.w[c + 1] = IsWordChar(c)
+                          /\ e.s[c + 1] = IsWhitespaceByte(c)
+                          /\ (c # 95 => e.p[c + 1] = IsPunctByte(c))
+                          /\ e.u8[c + 1] = LeadByteLen(c)
+
+(* line_processor::utils over the default configuration: x.filt filter_by_length(min, max),         *)
+(* x.uniq extract_unique_lines (any order), x.an analyze_text counters, x.wf count_word_frequencies  *)
+(* (lower-cased white-space separated tokens with their counts, any order; ASCII texts only)          *)
+RECURSIVE SelectLen(_, _, _, _)
+SelectLen(ls, lo, hi, i) ==
+    IF i > Len(ls) THEN <<>>
+    ELSE (IF Len(ls[i]) >= lo /\ Len(ls[i]) <= hi THEN << ls[i] >> ELSE <<>>) \o SelectLen(ls, lo, hi, i + 1)
+RECURSIVE TokensFrom(_, _, _)
+TokensFrom(ln, start, p) ==          \* maximal runs of non-space bytes
+    IF p > Len(ln) THEN (IF start < p THEN << SubSeq(ln, start, p - 1) >> ELSE <<>>)
+    ELSE IF IsSpace(ln[p]) THEN (IF start < p THEN << SubSeq(ln, start, p - 1) >> ELSE <<>>) \o TokensFrom(ln, p + 1, p + 1)
+    ELSE TokensFrom(ln, start, p + 1)
+Tokens(ln) == TokensFrom(ln, 1, 1)
+RECURSIVE AllTokens(_, _)
+AllTokens(ls, i) == IF i > Len(ls) THEN <<>> ELSE Tokens(ToLower(ls[i])) \o AllTokens(ls, i + 1)
+RECURSIVE SumLens(_, _)
+SumLens(ls, i) == IF i > Len(ls) THEN 0 ELSE Len(ls[i]) + SumLens(ls, i + 1)
+RECURSIVE SumChars(_, _)
+SumChars(ls, i) == IF i > Len(ls) THEN 0 ELSE CharCount(ls[i]) + SumChars(ls, i + 1)
+LineUtilsOK(e) ==
+    LET ls == Lines(e.text, FALSE, FALSE, FALSE)
+        toks == AllTokens(ls, 1)
+    IN /\ \A i \in 1..Len(e.filt) : ~e.filt[i].ok \/ e.filt[i].r = SelectLen(ls, e.filt[i].min, e.filt[i].max, 1)
+       /\ ~e.uniq.ok \/ (ToSet(e.uniq.r) = ToSet(ls) /\ Len(e.uniq.r) = Cardinality(ToSet(ls)))
+       /\ ~e.an.ok \/ /\ e.an.lines = Len(ls)
+                       /\ e.an.bytes = SumLens(ls, 1)
+                       /\ e.an.chars = SumChars(ls, 1)
+                       /\ e.an.empty = Cardinality({ i \in 1..Len(ls) : Trim(ls[i]) = <<>> })
+                       /\ e.an.maxlen = (IF Len(ls) = 0 THEN 0 ELSE CHOOSE m \in { Len(ls[i]) : i \in 1..Len(ls) } :
+                                                                       \A i \in 1..Len(ls) : Len(ls[i]) <= m)
+                       /\ e.an.words = Len(toks)
+       /\ ~e.wf.ok \/ /\ { e.wf.r[i][1] : i \in 1..Len(e.wf.r) } = ToSet(toks)
+                       /\ Len(e.wf.r) = Cardinality(ToSet(toks))
+                       /\ \A i \in 1..Len(e.wf.r) : e.wf.r[i][2] = Count(toks, e.wf.r[i][1])
+
+(* unicode.rs over one byte string c.s: validate_utf8_and_count_chars (c.ok, c.n), the code points   *)
+(* delivered by Utf8ToUtf32Iterator forwards (c.fwd, byte_position after each step c.fpos) and then    *)
+(* backwards from the end (c.bwd, c.bpos), extract_codepoints (c.cps) and the counters of analyze      *)
+Utf8CaseOK(c) ==
+    LET s == c.s  d == Decode(s)  st == CharStarts(s) IN
+    /\ c.ok = IsUtf8(s)
+    /\ c.ok => c.n = Len(d)
+    /\ c.iter = IsUtf8(s)                                          \* Utf8ToUtf32Iterator::new refuses ill-formed input
+    /\ c.iter => /\ c.fwd = d
+                 /\ c.fpos = [i \in 1..Len(d) |-> IF i < Len(d) THEN st[i + 1] ELSE Len(s)]
+                 /\ c.bwd = Reverse(d)
+                 /\ c.bpos = Reverse(st)
+                 /\ c.cps = d
+                 /\ c.an.chars = Len(d) /\ c.an.bytes = Len(s)
+                 /\ c.an.ascii = Cardinality({ i \in 1..Len(d) : d[i] <= 127 })
+                 /\ c.an.latin1 = Cardinality({ i \in 1..Len(d) : d[i] \in 128..255 })
+                 /\ c.an.ext = Cardinality({ i \in 1..Len(d) : d[i] \in 256..6143 })
+                 /\ c.an.other = Cardinality({ i \in 1..Len(d) : d[i] > 6143 })
 =============================================================================
